@@ -115,9 +115,52 @@ Definition is_ts (l : language) : bool := match l with LTypeScript => true | _ =
 (* what precedes the body brace of an item that is not a statement: recognised from the words at its head.
    Result: (prefix words, header tokens up to the brace, name offset, header-shape end offset) for a function,
    or the control form *)
+(* open_prefix, decided: Some d = the number of parentheses left open *)
+Fixpoint open_walk (ts : list token) (depth : nat) : option nat :=
+  match ts with
+  | [] => Some depth
+  | t :: r =>
+      if is_lbrace t || is_rbrace t then None
+      else if is_lparen t then open_walk r (S depth)
+      else if is_rparen t then match depth with O => None | S d => open_walk r d end
+      else if is_operator t s_colon then None
+      else open_walk r depth
+  end.
+(* cb_tail, decided *)
+Definition cb_tail_b (ts : list token) : bool :=
+  match ts with
+  | [] => false
+  | fk :: gs =>
+      (kw_is fk s_function && groups_b gs)
+      || match rev ts with
+         | arrow :: rgs => is_symbol arrow s_arrow && groups_b (rev rgs)
+         | [] => false
+         end
+  end.
+(* the callback split of the tokens before the first "{": the first k with an admissible prefix and tail *)
+Fixpoint cb_find (fuel k : nat) (pre : list token) : option (nat * nat) :=
+  match fuel with
+  | O => None
+  | S f =>
+      let a := firstn k pre in
+      let ok := match open_walk a O with
+                | Some d => match a with
+                            | [] => None
+                            | _ => let z := last a (mkTok KOther [] 0 0) in
+                                   if (is_lparen z || is_symbol z s_comma) && cb_tail_b (skipn k pre) then Some d else None
+                            end
+                | None => None
+                end in
+      match ok with
+      | Some d => Some (k, d)
+      | None => cb_find f (S k) pre
+      end
+  end.
+
 Inductive head_kind :=
 | HFunc (pre hd : list token) (nm_off hend_off : nat)
-| HCtrl (kw : token) (words cond : list token).
+| HCtrl (kw : token) (words cond : list token)
+| HCb (a tail : list token) (d : nat).
 
 Definition split_last (ws : list token) : option (list token * token) :=
   match rev ws with [] => None | x :: r => Some (rev r, x) end.
@@ -212,7 +255,14 @@ Fixpoint parse_items (fuel : nat) (l : language) (off : nat) (ts : list token) :
                    match init_len ts with
                    | Some n => parse_items f l (off + n) (skipn n ts)
                    | None =>
-                   match parse_head l ts with
+                   let cb := if is_jsts l then
+                               let '(pre, rest) := take_until_brace ts in
+                               match cb_find (S (length pre)) 1 pre with
+                               | Some (k, d) => Some (HCb (firstn k pre) (skipn k pre) d, rest)
+                               | None => None
+                               end
+                             else None in
+                   match (match cb with Some x => Some x | None => parse_head l ts end) with
                    | None => None
                    | Some (hk, rest) =>
                        match rest with
@@ -223,7 +273,15 @@ Fixpoint parse_items (fuel : nat) (l : language) (off : nat) (ts : list token) :
                            | Some (ds1, c :: more) =>
                                if negb (is_rbrace c) then None else
                                let blen := (length body_and_more - length (c :: more))%nat in
-                               match parse_items f l (off + hlen + 1 + blen + 1) more with
+                               (* a callback is closed by its parentheses and a ";" *)
+                               let extra := match hk with HCb _ _ d => S d | _ => O end in
+                               let closes_ok := match hk with
+                                                | HCb _ _ d => forallb is_rparen (firstn d more) && Nat.eqb (length (firstn d more)) d
+                                                               && match skipn d more with semi :: _ => is_symbol semi semicolon | [] => false end
+                                                | _ => true
+                                                end in
+                               if negb closes_ok then None else
+                               match parse_items f l (off + hlen + 1 + blen + 1 + extra) (skipn extra more) with
                                | Some (ds2, rest3) =>
                                    match hk with
                                    | HCtrl kw words cond =>
@@ -231,6 +289,7 @@ Fixpoint parse_items (fuel : nat) (l : language) (off : nat) (ts : list token) :
                                           && (match cond with [] => true | _ => negb (is_name (last (kw :: words) kw)) end)
                                           && forallb (fun x => negb (kw_is x s_throws)) (words ++ cond)
                                        then Some (ds1 ++ ds2, rest3) else None
+                                   | HCb _ _ _ => Some (ds1 ++ ds2, rest3)
                                    | HFunc pre hd nm_off hend_off =>
                                        if forallb (prefix_word l) pre
                                           && (lang_nested l || match ds1 with [] => true | _ => false end)
